@@ -32,6 +32,7 @@ mod c17_real;
 mod c16_world;
 mod c18;
 mod c19;
+mod c19_real;
 mod c20;
 
 static HOOKS: rzmq::verif::sched::Hooks = rzmq::verif::sched::Hooks {
